@@ -32,7 +32,7 @@ RULE = ('operation histories over the clash universe; exhaustive to the stated d
         'seeded random histories; a case = one history; distinct by the history itself; non-trivial = at least one accepted '
         'mutation; states = distinct model states visited, transitions = calls executed and compared')
 ASSUMPTIONS = ['preconditions listed in level_note', 'CPython trusted; icontract trusted for evaluating the invariants']
-EXHAUSTIVE = {'quick': 'all database-level histories of length <= 3 over 54 operations; all table-level histories of length <= 3 over 31 operations',
+EXHAUSTIVE = {'quick': 'all database-level histories of length <= 3 over 61 operations; all table-level histories of length <= 3 over 33 operations',
               'thorough': 'as quick, plus table-level length 4 and BFS over distinct model states to depth 5 (database) / 6 (table)'}
 
 _contract_counts = {'db': 0, 'table': 0}
@@ -127,6 +127,7 @@ class U:
         table('T4', 'c', schema='s', alias='al')
         table('T5', 'd', alias='public.b')
         T6 = table('T6', 'e')
+        table('T7', 'selfal', alias='selfal')          # alias spelled like the table's own bare name
         TX = table('TX', 'never1')
         TY = table('TY', 'never2')
 
@@ -191,7 +192,7 @@ class U:
                 self.project, ren)
 
 
-DB_OBJECTS = ['T1', 'T1b', 'T2', 'T3', 'T4', 'T5', 'T6', 'E1', 'E1b', 'E2', 'E3', 'G1', 'G2', 'G3', 'R1', 'R1b', 'R2', 'R3',
+DB_OBJECTS = ['T1', 'T1b', 'T2', 'T3', 'T4', 'T5', 'T6', 'T7', 'E1', 'E1b', 'E2', 'E3', 'G1', 'G2', 'G3', 'R1', 'R1b', 'R2', 'R3',
               'P1', 'P2', 'S1', 'S2', 'U1', 'U2', 'U3']
 DB_OPS = [('add', x) for x in DB_OBJECTS] + [('del', x) for x in DB_OBJECTS if x not in ('U3',)] + \
          [('ren', t, f) for t in ('T1', 'T3', 'T6') for f in ('name', 'schema', 'alias')] + [('delproject',)]
@@ -459,6 +460,10 @@ class TU:
         m['I3'] = {'kind': 'idx', 'subj': (), 'eq': 'i3'}
         o['I4'] = Index([o['C3'], o['C1']], name='n')
         m['I4'] = {'kind': 'idx', 'subj': ('C3', 'C1'), 'eq': 'i4'}
+        o['I5'] = Index([o['C1'], o['CF']])           # own column first, foreign column later
+        m['I5'] = {'kind': 'idx', 'subj': ('C1', 'CF'), 'eq': 'i5'}
+        o['I6'] = Index([Expression('x*2'), o['C3'], o['CF']])
+        m['I6'] = {'kind': 'idx', 'subj': ('C3', 'CF'), 'eq': 'i6'}
         o['X1'] = 'not a column'
         m['X1'] = {'kind': 'junk'}
         self.cols, self.idxs = [], []
@@ -473,7 +478,7 @@ class TU:
 
 
 T_OPS = [('addc', x) for x in ('C1', 'C2', 'C3', 'X1')] + [('delc', x) for x in ('C1', 'C2', 'C3', 'CT', 'CF')] + \
-        [('delc_i', i) for i in (0, 1, -1, 5)] + [('addi', x) for x in ('I1', 'I1b', 'I2', 'I3', 'I4', 'X1')] + \
+        [('delc_i', i) for i in (0, 1, -1, 5)] + [('addi', x) for x in ('I1', 'I1b', 'I2', 'I3', 'I4', 'I5', 'I6', 'X1')] + \
         [('deli', x) for x in ('I1', 'I1b', 'I2', 'I3', 'I4')] + [('deli_i', i) for i in (0, 1, -1, 5)] + \
         [('attach',), ('detach',), ('renc', 'C1')]
 
